@@ -46,7 +46,8 @@ def generate(rng, tier, index):
     n_nodes = rng.choice([2, 3, 4, 5, 6, 8]) if tier == "quick" else rng.choice([2, 3, 4, 5, 6, 8, 10, 14])
     triples = gen.gen_graph(rng, n_nodes=n_nodes, n_classes=rng.randint(1, 3), n_props=rng.randint(1, 4),
                             kinds=("node", "str", "int", "iri", "iri2"), density=rng.choice([0.4, 0.6, 0.8]),
-                            twins=0)    # a plain string that looks like a number is outside C15's domain
+                            twins=0,    # a plain string that looks like a number is outside C15's domain
+                            same_local_classes=0.12)
     tp = gen.CUSTOM_TYPE if rng.random() < 0.12 else gen.RDF_TYPE
     triples = gen.retype(gen.ensure_class(triples), tp)
     target = gen.gen_target(rng, triples, allow_shape_map=True, type_prop=tp)
